@@ -256,6 +256,8 @@ def style_specs(draw, n):
                 # some names look like other things a package holds (an inner zip, a document, an archive)
                 suffix = draw(st.sampled_from([".png", ".png", ".png", "-index.zip", ".numbers.png", ".iwa.png"]))
                 s["bg_image"] = [f"docgen_img_{i}_{draw(st.integers(0, 10**6))}{suffix}", data.hex()]
+                if i == 0 and draw(st.integers(0, 5)) == 0:
+                    s["bg_image"][0] = draw(st.sampled_from(["Index.zip", "index.zip", "Metadata.plist"]))   # a data file named like a part of the package
             else:
                 s["bg_color"] = draw(rgb)
         if draw(st.booleans()):
